@@ -107,6 +107,36 @@ public class BigNumOverrides {
         return IntValue.gen(toBig(x).compareTo(toBig(y)));
     }
 
+    @TLAPlusOperator(identifier = "BigPow", module = "Binomial", warn = false)
+    public static Value bigPow(final Value x, final Value n) {
+        return fromBig(toBig(x).pow(((IntValue) n).val));
+    }
+
+    /** sum over selected k of C(n,k) a^k (b-a)^(n-k): iterative weights with exact division */
+    @TLAPlusOperator(identifier = "BinomSumSel", module = "Binomial", warn = false)
+    public static Value binomSumSel(final Value nv, final Value av, final Value bv, final Value sel) {
+        final int n = ((IntValue) nv).val;
+        final BigInteger a = BigInteger.valueOf(((IntValue) av).val);
+        final BigInteger c = BigInteger.valueOf(((IntValue) bv).val).subtract(a);
+        final Value[] s = ((TupleValue) sel.toTuple()).elems;
+        BigInteger w = c.pow(n);           // k = 0
+        BigInteger sum = BigInteger.ZERO;
+        for (int k = 0; k <= n; k++) {
+            if (((IntValue) s[k]).val == 1) {
+                sum = sum.add(w);
+            }
+            if (k < n) {
+                if (c.signum() == 0) {
+                    w = (k + 1 == n) ? a.pow(n) : BigInteger.ZERO;
+                } else {
+                    w = w.multiply(BigInteger.valueOf(n - k)).multiply(a)
+                         .divide(BigInteger.valueOf(k + 1).multiply(c));
+                }
+            }
+        }
+        return fromBig(sum);
+    }
+
     @TLAPlusOperator(identifier = "BigShr", module = "BigNum", warn = false)
     public static Value bigShr(final Value x, final Value k) {
         final BigInteger b = toBig(x);
